@@ -1089,6 +1089,16 @@ theorem setUser_gen (st : St) (h : WF st) (k : Key) (v : Val) (hv : v.WF) :
   · rw [e]; left; simp only []; rw [save_gen]; simp [signal, (putOpt_misc _ _).1]
   · rw [e]; exact Or.inr rfl
 
+/-- A successful single-option set has signalled: the validity-flag generation advanced. -/
+theorem setUser_ok_gen (st : St) (h : WF st) (k : Key) (v : Val) (hv : v.WF)
+    (hok : (setUser st k v).2 = .ok ()) : (setUser st k v).1.gen = st.gen + 1 := by
+  unfold setUser at hok ⊢
+  rcases writeUser_cases st h k v hv with ⟨_, e⟩ | ⟨o, _, _, e⟩ | ⟨o, c, _, _, _, e⟩ | ⟨o, _, _, _, _, e⟩
+  · rw [e] at hok; simp at hok
+  · rw [e]; simp only []; rw [save_gen]; simp [signal, (putOpt_misc _ _).1]
+  · rw [e]; simp only []; rw [save_gen]; simp [signal, (putOpt_misc _ _).1]
+  · rw [e] at hok; simp at hok
+
 theorem setDflt_gen (st : St) (h : WF st) (k : Key) (v : Val) (hv : v.WF) :
     (setDflt st k v).1.gen = st.gen + 1 ∨ (setDflt st k v).1 = st := by
   unfold setDflt
